@@ -6,6 +6,7 @@ package main
 // integers) — floating-point rounding of the real VM is outside the claim.
 
 import (
+	"math"
 	"fmt"
 	"math/big"
 	"strconv"
@@ -20,7 +21,15 @@ type LVal interface{}
 type LNilV struct{}
 type LBoolV struct{ t *Term }
 type LNumV struct{ t *Term }           // integer valued
-type LRatV struct{ num, den *Term }     // exact quotient, den > 0 on the path
+// LRatV: the float64 result of ONE division of two integers, kept as the exact quotient num/den (den > 0 on the
+// path).  For |num| < 2^53 the rounding of that single division cannot move the value across an integer, so floor,
+// ceil and comparisons against integers are decided exactly on the quotient.  Any further arithmetic on such a value
+// is float-sensitive and goes through LFltV.
+type LRatV struct{ num, den *Term }
+
+// LFltV: a concrete float64 (Lua number that is not known to be an integer).  Symbolic operands of float-sensitive
+// arithmetic are first concretised by case split over their interval (concretize).
+type LFltV struct{ f float64 }
 type LStrV struct{ t *Term }
 type LTableV struct {
 	keys []LVal
@@ -431,7 +440,7 @@ func luaTypeName(v LVal) string {
 		return "nil"
 	case LBoolV:
 		return "boolean"
-	case LNumV, LRatV:
+	case LNumV, LRatV, LFltV:
 		return "number"
 	case LStrV:
 		return "string"
@@ -453,6 +462,12 @@ func (li *luaInterp) tostr(v LVal) *Term {
 		return mkIte(x.t, mkStr("true"), mkStr("false"))
 	case LNilV:
 		return mkStr("nil")
+	case LRatV, LFltV:
+		// gopher-lua formats numbers with %.14g
+		if w, ok := wrapFloat(li.toFloat(v)).(LNumV); ok {
+			return mkFromInt(w.t)
+		}
+		return mkStr(fmt.Sprintf("%.14g", li.toFloat(v)))
 	}
 	li.ex.unsupported("lua tostring of " + luaTypeName(v))
 	return nil
@@ -476,6 +491,9 @@ func (li *luaInterp) valEq(a, b LVal) *Term {
 			return mkEq(mkMul(x.t, y.den), y.num)
 		}
 		return tFalse
+	case LFltV:
+		y, ok := b.(LFltV)
+		return mkBool(ok && x.f == y.f)
 	case LRatV:
 		switch y := b.(type) {
 		case LNumV:
@@ -643,10 +661,99 @@ func (li *luaInterp) ratio(v LVal) (*Term, *Term) {
 	if r, ok := v.(LRatV); ok {
 		return r.num, r.den
 	}
+	if _, ok := v.(LFltV); ok {
+		li.ex.unsupported("lua operation on a non-integral float that is only modelled for + - * / % floor ceil abs tostring")
+	}
 	return li.num(v), mkInt(1)
 }
 
+// concretize forks the path over the values of an integer term with a small known interval (<= 256 values).
+func (li *luaInterp) concretize(t *Term) int64 {
+	if c, ok := t.constInt(); ok {
+		return c
+	}
+	if t.lo == nil || t.hi == nil || !t.lo.IsInt64() || !t.hi.IsInt64() || t.hi.Int64()-t.lo.Int64() > 256 {
+		li.ex.unsupported("lua float arithmetic on a symbolic number without a small known range (float64 rounding is only modelled by case split)")
+	}
+	for k := t.lo.Int64(); k < t.hi.Int64(); k++ {
+		if li.ex.branch(mkEq(t, mkInt(k))) {
+			return k
+		}
+	}
+	return t.hi.Int64()
+}
+
+func (li *luaInterp) isFloaty(v LVal) bool {
+	switch v.(type) {
+	case LRatV, LFltV:
+		return true
+	}
+	return false
+}
+
+// toFloat gives the float64 the Lua VM holds for v (concretising symbolic parts).
+func (li *luaInterp) toFloat(v LVal) float64 {
+	switch x := v.(type) {
+	case LFltV:
+		return x.f
+	case LRatV:
+		return float64(li.concretize(x.num)) / float64(li.concretize(x.den))
+	}
+	return float64(li.concretize(li.num(v)))
+}
+
+func wrapFloat(f float64) LVal {
+	if f == math.Trunc(f) && math.Abs(f) < 1e15 {
+		return LNumV{mkInt(int64(f))}
+	}
+	return LFltV{f}
+}
+
+// divExact: num/c as an integer term when that is syntactically evident.
+func divExact(num *Term, c int64) (*Term, bool) {
+	if c == 1 {
+		return num, true
+	}
+	if k, ok := num.constInt(); ok {
+		if k%c == 0 {
+			return mkInt(k / c), true
+		}
+		return nil, false
+	}
+	if num.op == "*" && len(num.args) == 2 {
+		for i := 0; i < 2; i++ {
+			if k, ok := num.args[i].constInt(); ok && k%c == 0 {
+				return mkMul(mkInt(k/c), num.args[1-i]), true
+			}
+		}
+	}
+	return nil, false
+}
+
 func (li *luaInterp) arith(op string, l, r LVal) LVal {
+	if li.isFloaty(l) || li.isFloaty(r) {
+		// float-sensitive: evaluate in float64 exactly as the VM does
+		a, b := li.toFloat(l), li.toFloat(r)
+		switch op {
+		case "+":
+			return wrapFloat(a + b)
+		case "-":
+			return wrapFloat(a - b)
+		case "*":
+			return wrapFloat(a * b)
+		case "/":
+			if b == 0 {
+				li.ex.unsupported("lua division by zero (inf/nan)")
+			}
+			return wrapFloat(a / b)
+		case "%":
+			if b == 0 {
+				li.ex.unsupported("lua modulo by zero")
+			}
+			return wrapFloat(a - math.Floor(a/b)*b)
+		}
+		li.ex.unsupported("lua arithmetic operator " + op + " on floats")
+	}
 	ln, ld := li.ratio(l)
 	rn, rd := li.ratio(r)
 	one := func(t *Term) bool { c, ok := t.constInt(); return ok && c == 1 }
@@ -671,10 +778,17 @@ func (li *luaInterp) arith(op string, l, r LVal) LVal {
 			li.ex.unsupported("lua division by zero (inf/nan)")
 		}
 		if li.ex.branch(mkLt(den, mkInt(0))) {
-			return LRatV{mkNeg(num), mkNeg(den)}
+			num, den = mkNeg(num), mkNeg(den)
 		}
-		if one(den) {
-			return LNumV{num}
+		if c, ok := den.constInt(); ok {
+			if q, ok := divExact(num, c); ok {
+				return LNumV{q}
+			}
+		}
+		if nc, ok := num.constInt(); ok {
+			if dc, ok := den.constInt(); ok {
+				return wrapFloat(float64(nc) / float64(dc))
+			}
 		}
 		return LRatV{num, den}
 	case "%":
@@ -797,7 +911,7 @@ func (li *luaInterp) builtin(name string, args []LVal) []LVal {
 		return []LVal{LStrV{li.tostr(arg(0))}}
 	case "tonumber":
 		switch v := arg(0).(type) {
-		case LNumV, LRatV:
+		case LNumV, LRatV, LFltV:
 			return []LVal{v}
 		case LStrV:
 			if n, ok := invFromInt(v.t); ok {
@@ -855,12 +969,21 @@ func (li *luaInterp) builtin(name string, args []LVal) []LVal {
 		li.rawSet(t, LNumV{mkInt(n)}, LNilV{})
 		return []LVal{v}
 	case "math.floor":
+		if f, ok := arg(0).(LFltV); ok {
+			return []LVal{wrapFloat(math.Floor(f.f))}
+		}
 		n, d := li.ratio(arg(0))
 		return []LVal{LNumV{floorDiv(n, d)}}
 	case "math.ceil":
+		if f, ok := arg(0).(LFltV); ok {
+			return []LVal{wrapFloat(math.Ceil(f.f))}
+		}
 		n, d := li.ratio(arg(0))
 		return []LVal{LNumV{mkNeg(floorDiv(mkNeg(n), d))}}
 	case "math.abs":
+		if f, ok := arg(0).(LFltV); ok {
+			return []LVal{wrapFloat(math.Abs(f.f))}
+		}
 		n, d := li.ratio(arg(0))
 		if c, ok := d.constInt(); !ok || c != 1 {
 			li.ex.unsupported("lua math.abs of a fraction")
